@@ -78,28 +78,28 @@ def pair_contract(method, inp, symmetric=True):
     return None
 
 
-def make_pair_item(method, bound):
+def make_pair_item(method, bound, symmetric=True):
     site = CC + ("check_redundant_circuit" if method == "check_redundant_circuit" else f"compare_circuits(method={method!r})")
 
-    def checker(inp, _m=method):
-        return pair_contract(_m, inp)
+    def checker(inp, _m=method, _s=symmetric):
+        return pair_contract(_m, inp, symmetric=_s and not inp.get("approx"))
 
     checker.__name__ = f"pair_{method}"
     checker.__qualname__ = checker.__name__
     globals()[checker.__name__] = checker  # top-level name: the pool pickles checkers by name
     S.item(
-        f"{method}.sound_symmetric",
+        f"{method}.sound_symmetric" if symmetric else f"{method}.sound",
         site=site,
         bound=bound,
         clause="reported equal => same registers and same compiled state on every outcome branch"
         + (" up to renaming of same-type registers" if method == "is_isomorphic" else "")
-        + "; symmetric",
+        + ("; symmetric" if symmetric else ""),
     )(checker)
 
 
 FAST = (
     "all unordered pairs (both directions evaluated) of the enumerated circuits of <= 2 ops over ALPHA on (2e,2p,1c) "
-    "[quick: 14(+1)-op alphabet, 211 (241) circuits; thorough: 22(+1)-op alphabet, 507 (553) circuits] + near-miss pairs (role swap, gate change, wrapper reversal / wrapper gate change, "
+    "[quick: 13(+1)-op alphabet, 183 (211) circuits; thorough: 22(+1)-op alphabet, 507 (553) circuits] + near-miss pairs (role swap, gate change, wrapper reversal / wrapper gate change, "
     "register move, drop, duplicate, adjacent swap, renaming, wrapping, identity padding, different register counts) of "
     "seeded random circuits of <= 6 ops on <= (3e,2p,2c) [quick 300 bases, thorough 4000]"
 )
@@ -110,7 +110,7 @@ SLOW = (
     "graphiq's own time-outs"
 )
 make_pair_item("direct", FAST + "; thorough: also all unordered pairs of the 259 circuits of <= 3 ops over ALPHA3 on (2e,0p,0c)")
-make_pair_item("check_redundant_circuit", FAST + " (quick: every second enumerated pair)")
+make_pair_item("check_redundant_circuit", FAST + " (quick: every third enumerated pair)")
 make_pair_item(
     "is_isomorphic",
     FAST + "; plus all unordered pairs of those of the 259 circuits of <= 3 ops over ALPHA3 on (2e,0p,0c) that have no parallel "
@@ -119,9 +119,17 @@ make_pair_item(
     "circuit in which two operations are adjacent on two wires; those classes are driven by the fixed items "
     "is_isomorphic.classical_control_roles / is_isomorphic.parallel_edges",
 )
-make_pair_item("GED_approximate", SLOW.replace("quick 30 pairs", "quick 800 pairs"))
+APPROX_NOTE = (
+    "the approximate optimiser returns the cost of the first edit path it finds, which depends on the node order: equal circuits "
+    "whose nodes were created in a different order can be reported different (a missed equality by design), so only soundness "
+    "(and reflexivity on copies) is demanded of it, not symmetry / insensitivity"
+)
+make_pair_item("GED_approximate", SLOW.replace("quick 30 pairs", "quick 800 pairs") + "; " + APPROX_NOTE, symmetric=False)
 make_pair_item("GED_full", SLOW)
-make_pair_item("GED_adaptive", SLOW + "; plus 6 circuits of >= 30 nodes (approximate branch) against copies and near misses")
+make_pair_item(
+    "GED_adaptive",
+    SLOW + "; plus circuits of >= 30 nodes (approximate branch; soundness only there) against copies and near misses [quick 3, thorough 6]",
+)
 
 
 @S.item(
@@ -181,10 +189,10 @@ def pad_ops(ops, regs):
     "compare.insensitive_to_wrapping_and_identities",
     site=CC + "direct / ged / check_redundant_circuit / remove_redundant_circuits",
     bound="pairs (a,b) of the near-miss domain: verdict(a,b) = verdict(wrap(a),b) = verdict(a,pad(b)) and verdict(a,wrap(a)) = "
-    "verdict(a,pad(a)) = equal, for direct, check_redundant_circuit, GED_approximate (+ GED_full on the small registers); "
+    "verdict(a,pad(a)) = equal, for direct, check_redundant_circuit (+ GED_full on every 6th (thorough 2nd) pair of ged_targeted() and every 12th (3rd) small-register circuit against itself); "
     "remove_redundant_circuits([a, wrap(a), pad(a)]) keeps one (only for a without parallel DAG edges and without same-type "
     "classically controlled pairs - known findings C15-iso-*).  The bare is_isomorphic method compares wrappers as they stand "
-    "(its de-duplication front end unwraps first) and is not asked for insensitivity",
+    "(its de-duplication front end unwraps first) and is not asked for insensitivity; nor is GED_approximate (see its bound)",
     clause="insensitive to wrapping of single-qubit gates and to identity gates",
 )
 def insensitive_case(inp):
@@ -406,17 +414,99 @@ def parallel_dedup_case(inp):
 
 ALPHA3 = [["g", "H", _e(0)], ["g", "H", _e(1)], ["g", "P", _e(0)], ["cx", _e(0), _e(1)], ["cx", _e(1), _e(0)], ["cz", _e(0), _e(1)]]
 
+def wire_view(regs, ops):
+    """per-register sequences of (class, q_registers, q_registers_type, c_registers) of the circuit built with add(),
+    from the independent wire model"""
+    from refsem import dagmodel as dm
+
+    m = dm.WireModel(*regs)
+    for d in ops:
+        m.add(d)
+    return (dict(m.n), {k: [dm.norm(m.ops[u]) for u in w] for k, w in m.wires.items()})
+
+
+@S.item(
+    "direct.order_on_every_wire",
+    site=CC + "direct / CircuitDAG.compare(method='direct') / check_redundant_circuit / CircuitStorage.add_new_circuit",
+    bound="fixed, seed-independent exhaustive family: every unordered pair (both directions evaluated) of gate sequences of length "
+    "2..3 with the SAME gate multiset, drawn from (A) CNOT on the 6 ordered pairs + CZ on the 3 pairs of 3 emitters, (B) 6 "
+    "CNOT/CZ gates + H e1 on (2e,1p), (C) measure-reset e0->p0, e1->p0, ClassicalCNOT e0->e1, e1->e0, CNOT e0->e1, e1->p0, "
+    "CZ e0-p0 on (2e,1p,1c); 4.4 k pairs (thorough: + CNOT and CZ on all 6 ordered pairs + H e0 on 3 emitters)",
+    exhaustive=True,
+    clause="reported equal exactly when, on EVERY register's wire, the sequence of (class, q_registers, q_registers_type, "
+    "c_registers) is the same in both circuits (multi-register gates in a different order on a later-walked wire); symmetric; "
+    "same verdict through compare(), check_redundant_circuit and CircuitStorage",
+)
+def order_case(inp):
+    import graphiq.utils.circuit_comparison as cc
+
+    regs, a, b = inp["regs"], inp["a"], inp["b"]
+    want = wire_view(regs, a) == wire_view(regs, b)
+    got = {}
+    got["compare(a,b,'direct')"] = bool(build(regs, a).compare(build(regs, b), method="direct"))
+    got["compare(b,a,'direct')"] = bool(build(regs, b).compare(build(regs, a), method="direct"))
+    got["check_redundant_circuit(a,b)"] = bool(cc.check_redundant_circuit(build(regs, a), build(regs, b)))
+    st = cc.CircuitStorage()
+    first = st.add_new_circuit(build(regs, a))
+    second = st.add_new_circuit(build(regs, b))
+    if not first:
+        return "CircuitStorage refused the first circuit"
+    got["CircuitStorage refuses b after a"] = not second
+    bad = {k: v for k, v in got.items() if v != want}
+    if bad:
+        sem = equivalent("direct", regs, a, regs, b)
+        return (
+            f"wires {'agree' if want else 'differ on some register'} (compiled states {'equal' if sem else 'differ'}) but "
+            + ", ".join(f"{k} = {v}" for k, v in bad.items())
+        )
+    return None
+
+
+def order_family(regs, symbols, lengths=(2, 3)):
+    """all unordered pairs of sequences over `symbols` with the same multiset"""
+    groups = {}
+    for L in lengths:
+        for t in itertools.product(range(len(symbols)), repeat=L):
+            groups.setdefault(tuple(sorted(t)), []).append(t)
+    out = []
+    for g in groups.values():
+        for i, x in enumerate(g):
+            for y in g[i:]:
+                out.append({"regs": list(regs), "a": [symbols[k] for k in x], "b": [symbols[k] for k in y]})
+    return out
+
+
+def order_domain(thorough):
+    e0, e1, e2, p0 = ["e", 0], ["e", 1], ["e", 2], ["p", 0]
+    E = [e0, e1, e2]
+    A = [["cx", x, y] for x in E for y in E if x != y] + [["cz", E[i], E[j]] for i in range(3) for j in range(i + 1, 3)]
+    B = [["cx", e0, e1], ["cx", e1, e0], ["cx", e0, p0], ["cx", e1, p0], ["cz", e0, e1], ["cz", e1, p0], ["g", "H", e1]]
+    C = [["mcr", e0, p0, 0], ["mcr", e1, p0, 0], ["ccx", e0, e1, 0], ["ccx", e1, e0, 0], ["cx", e0, e1], ["cx", e1, p0], ["cz", e0, p0]]
+    dom = order_family((3, 0, 0), A) + order_family((2, 1, 0), B) + order_family((2, 1, 1), C)
+    if thorough:
+        A2 = [[k, x, y] for k in ("cx", "cz") for x in E for y in E if x != y] + [["g", "H", e0]]
+        seen = {vfkey(d) for d in dom}
+        dom += [d for d in order_family((3, 0, 0), A2) if vfkey(d) not in seen]
+    return dom
+
+
+def vfkey(d):
+    import json
+
+    return json.dumps(d, sort_keys=True)
+
+
 # ---------------------------------------------------------------------------------------------- domains
 def alpha_fast(thorough, iso):
     """ALPHA: operation alphabet of the enumerated circuits on (2e,2p,1c).  Classically controlled pairs between two registers
     of the same type are offered to the exact methods only (iso=False)"""
     e0, e1, p0, p1 = ["e", 0], ["e", 1], ["p", 0], ["p", 1]
     A = [
-        ["g", "H", e0], ["g", "H", e1], ["g", "H", p0], ["g", "P", e0], ["g", "I", e1], ["w", ["H", "P"], e1], ["w", ["P", "H"], e1],
+        ["g", "H", e0], ["g", "H", e1], ["g", "P", e0], ["g", "I", e1], ["w", ["H", "P"], e1], ["w", ["P", "H"], e1],
         ["mz", e0, 0], ["cx", e0, e1], ["cx", e1, e0], ["cx", e0, p0], ["cx", e1, p1], ["cz", e0, e1], ["mcr", e0, p0, 0],
     ]
     if thorough:
-        A += [["g", "X", p1], ["g", "P", p0], ["w", ["P", "H"], e0], ["mz", p0, 0], ["cx", p0, p1], ["cz", e1, p0],
+        A += [["g", "H", p0], ["g", "X", p1], ["g", "P", p0], ["w", ["P", "H"], e0], ["mz", p0, 0], ["cx", p0, p1], ["cz", e1, p0],
               ["mcr", e1, p0, 0], ["ccx", e0, p1, 0]]
     if not iso:
         A += [["ccx", e0, e1, 0]]
@@ -584,7 +674,7 @@ def run(tier, seed):
     E3_i = [c for c in E3 if not (EXCLUDE_PARALLEL and has_parallel(c[1]))]
     px = all_pairs(E_x)
     S.map("direct.sound_symmetric", px + near_x + (all_pairs(E3) if thorough else []), nontrivial=nontrivial_pair)
-    S.map("check_redundant_circuit.sound_symmetric", (px if thorough else px[::2]) + near_x, nontrivial=nontrivial_pair)
+    S.map("check_redundant_circuit.sound_symmetric", (px if thorough else px[::3]) + near_x, nontrivial=nontrivial_pair)
     S.map("is_isomorphic.sound_symmetric", all_pairs(E_i) + near_i + all_pairs(E3_i), nontrivial=nontrivial_pair)
 
     # GED methods: small registers
@@ -604,14 +694,14 @@ def run(tier, seed):
         if len(c[1]) == 2 and r2.random() < (1.0 if thorough else 0.04):
             small_near += [{"ra": c[0], "a": c[1], "rb": v[0], "b": v[1]} for v in variants(r2, c, False)[:9]]
     slow = small_pairs_1 + ged_targeted() + [small_pairs_2[i] for i in idx[:n_slow]] + small_near
-    S.map("GED_approximate.sound_symmetric", small_pairs_1 + ged_targeted() + [small_pairs_2[i] for i in idx[:n_apx]] + small_near, nontrivial=nontrivial_pair)
+    S.map("GED_approximate.sound", small_pairs_1 + ged_targeted() + [small_pairs_2[i] for i in idx[:n_apx]] + small_near, nontrivial=nontrivial_pair)
     S.map("GED_full.sound_symmetric", slow, nontrivial=nontrivial_pair, chunksize=2)
     big = []
     for j in range(6 if thorough else 3):
         b = big_circuit(rng, 22 + j)
-        big.append({"ra": b[0], "a": b[1], "rb": b[0], "b": b[1]})
+        big.append({"ra": b[0], "a": b[1], "rb": b[0], "b": b[1], "approx": 1})
         v = variants(rng, b, False)
-        big += [{"ra": b[0], "a": b[1], "rb": x[0], "b": x[1]} for x in v[:3]]
+        big += [{"ra": b[0], "a": b[1], "rb": x[0], "b": x[1], "approx": 1} for x in v[:3]]
     S.map("GED_adaptive.sound_symmetric", slow + big, nontrivial=nontrivial_pair, chunksize=2)
 
     # reflexive
@@ -625,8 +715,9 @@ def run(tier, seed):
     def dedup_ok(p):
         return not (EXCLUDE_PARALLEL and (has_parallel(p["a"]) or any(d[0] in ("ccx", "ccz", "mcr") and d[1][0] == d[2][0] for d in p["a"])))
 
-    ins = [dict(p, methods=["direct", "check_redundant_circuit"], dedup=(k % 3 == 0 and dedup_ok(p))) for k, p in enumerate(near_x[:: (1 if thorough else 4)])]
-    ins += [dict(p, methods=["GED_approximate"] + (["GED_full"] if k % 8 == 0 else [])) for k, p in enumerate(small_near[:: (1 if thorough else 2)])]
+    ins = [dict(p, methods=["direct", "check_redundant_circuit"], dedup=(k % 3 == 0 and dedup_ok(p))) for k, p in enumerate(near_x[:: (3 if thorough else 4)])]
+    ins += [dict(p, methods=["GED_full"]) for p in ged_targeted()[:: (2 if thorough else 6)]]
+    ins += [{"ra": c[0], "a": c[1], "rb": c[0], "b": c[1], "methods": ["GED_full"]} for c in small_circs[:: (3 if thorough else 12)]]
     ins += [dict(p, methods=["direct"], dedup=dedup_ok(p)) for p in all_pairs(enumerated(alpha_fast(False, True)[5:11], regs))]
     S.map("compare.insensitive_to_wrapping_and_identities", ins, nontrivial=nontrivial_pair, chunksize=4)
 
@@ -663,6 +754,7 @@ def run(tier, seed):
     st += [dict(l, mode="disabled") for l in lists_x[::10]]
     S.map("CircuitStorage.keeps_every_distinct", st, chunksize=8)
 
+    S.map("direct.order_on_every_wire", order_domain(thorough), nontrivial=lambda i: i["a"] != i["b"], chunksize=16)
     S.map("is_isomorphic.classical_control_roles", ROLE_PAIRS)
     S.map("remove_redundant_circuits.classical_control_roles", ROLE_PAIRS[:4])
     S.map("is_isomorphic.parallel_edges", PARALLEL_PAIRS)
